@@ -109,7 +109,8 @@ fn lift_inner_pat_idents(sig: &mut syn::Signature) -> ParamStatus {
                 let ident_string = i.ident.to_string();
 
                 match ident_string.chars().next() {
-                    Some(char) if char.is_lowercase() => {
+                    // (a binding, as opposed to a unit struct or a constant. `_x` is a binding too.)
+                    Some(char) if char.is_lowercase() || char == '_' => {
                         self.binding_pat_count += 1;
                         if self.first_binding_pat_ident.is_none() {
                             self.first_binding_pat_ident = Some(i.ident.clone());
